@@ -30,6 +30,10 @@ def spawn_without_context(coro_fn):
 _keep = []
 
 
+class BaseBoom(BaseException):
+    pass
+
+
 def execute(case):
     import anyio
     from anyio import CancelScope, Event, create_task_group, get_cancelled_exc_class, sleep
@@ -123,7 +127,9 @@ def execute(case):
             if action == "call_raise":
                 def f():
                     log(ev="svc.action", k=k)
-                    raise Boom("action")
+                    # whatever the callable raises - an Exception or, in every other execution, a BaseException that is none -
+                    # the finalizer falls back to cancelling the task and goes on waiting for it
+                    raise (BaseBoom("action") if (k + case.get("seed", 0)) % 2 else Boom("action"))
                 return f
             if action == "call_async_raise":
                 async def f():
